@@ -10,7 +10,7 @@ LEVEL_TEXT = ("Bounded model checking of the real VolFile writer and reader over
               "the oracle is the inputs themselves plus an independent case-folding order.")
 LEVEL_NOTE = "Shapes enumerated in lib/props/C01.py; the fstream/filesystem models are validated by replaying each witness trace against the real library on real files."
 
-NAMESETS = [("b.TXT", "A.map", "c_1"), ("Zz", "zY.x", "a-b.c"), ("op2.ART", "OP1.art", "op10.x")]
+NAMESETS = [("b.TXT", "A.map", "c_1"), ("Zz", "zY.x", "a-b.c"), ("op2.ART", "OP1.art", "op10.x"), ("a_b.t", "ab.t", "A^c")]
 
 
 def q(name, entry, defs, desc, **kw):
@@ -28,6 +28,7 @@ def pack_shapes(tier):
     S.append((2, NAMESETS[2], (4, 2, 0), (0, 1, 2), "./"))
     S.append((3, NAMESETS[0], (3, 0, 5), (2, 0, 1), ""))
     S.append((3, NAMESETS[1], (7, 9, 8), (1, 2, 0), ""))
+    S.append((3, NAMESETS[3], (1, 2, 3), (0, 1, 2), ""))     # '_' and '^' sort between the upper- and lower-case letters: the two foldings disagree
     if tier == "thorough":
         for ns in NAMESETS:
             for order in itertools.permutations(range(3)):
